@@ -727,7 +727,24 @@ static int stream_drive(int start, int nexec)
 		int dstart[8], dend[8], al = 0;
 		for (int d = 0; d < ndocs; d++)
 		{
-			gen_doc(1 + (int)vh_below(3), 1 + (int)vh_below(8));
+			if (x % 3 == 1)
+			{
+				/* a string (or a one-member object) made of a few escape units: what one document leaves behind in the
+				 * escape decoder - a pending surrogate, a half-read \uXXXX - must not reach the next document */
+				static const char *units[] = {"\\ud834", "\\udd1e", "\\u0041", "\\ud83d\\ude00", "\\n", "x", "\\udbff", "\\u00e9", "\\\\", "\\ud800\\u0042"};
+				TL = 0;
+				int asname = vh_below(4) == 0;
+				if (asname)
+					puts_("{");
+				putc_('"');
+				for (int u = 1 + (int)vh_below(4); u > 0; u--)
+					puts_(units[vh_below(sizeof units / sizeof *units)]);
+				putc_('"');
+				if (asname)
+					puts_(":1}");
+			}
+			else
+				gen_doc(1 + (int)vh_below(3), 1 + (int)vh_below(8));
 			/* strip the generator's own surrounding white space so that the document boundaries are exact */
 			int a = 0, b = TL;
 			while (a < b && strchr(" \t\n\r", T[a]))
